@@ -12,7 +12,7 @@ import (
 )
 
 // yieldFiles are the files of /repo that get a yield point before every statement.
-var yieldFiles = []string{"cmds/server/loader/loader.go"}
+var yieldFiles = []string{"cmds/server/loader/loader.go", "cmds/server/loader/prefix_filter.go", "cmds/server/config/secret/prefix/provider.go"}
 
 // makeYieldCopy builds the yield-instrumented scratch copy of /repo's current working
 // tree and an alternative go.mod pointing the replace directive at it.
